@@ -466,6 +466,7 @@ type ContractFile struct {
 	GlobalGhosts map[string]string
 	Guarded []GuardDecl
 	Writers []WritersDecl
+	GlobalFacts map[string]Expr
 }
 
 // ParseContracts parses the //@ lines of a contract file.
@@ -566,6 +567,32 @@ func ParseContracts(path, pkgName, src string) (*ContractFile, error) {
 				return nil, fmt.Errorf("%s: %v", where, err)
 			}
 			cf.Axioms = append(cf.Axioms, &Axiom{Name: strings.TrimSpace(rest[:i]), E: e, Text: rest[i+1:]})
+		case "inline":
+			// inline <function>: calls are replaced by the callee body (small helpers returning closures)
+			if cur == nil || !strings.Contains(rest, ".") && rest != "" {
+			}
+			if rest != "" {
+				is := &UnitSpec{Name: strings.TrimSpace(rest), Assumed: true, Inline: true, Loops: map[int]*LoopSpec{}, File: path, Pkg: pkgName, Calls: map[string][]string{}, Opts: map[string]string{}}
+				cf.Units = append(cf.Units, is)
+				continue
+			}
+			if cur != nil {
+				cur.Inline = true
+			}
+		case "global":
+			// global pkg.Name: expr over v   (assumed fact about a package-level variable's value, e.g. library defaults)
+			i := strings.Index(rest, ":")
+			if i < 0 {
+				return nil, fmt.Errorf("%s: global needs 'pkg.Name: expr'", where)
+			}
+			e, err := ParseExpr(strings.TrimSpace(rest[i+1:]))
+			if err != nil {
+				return nil, fmt.Errorf("%s: %v", where, err)
+			}
+			if cf.GlobalFacts == nil {
+				cf.GlobalFacts = map[string]Expr{}
+			}
+			cf.GlobalFacts[strings.TrimSpace(rest[:i])] = e
 		case "writers":
 			// writers Type.field: fn, fn, ...   (only these functions may assign the field or update the map/slice it holds)
 			var wprops []string
